@@ -492,12 +492,15 @@ def _analyse_exec(run: Any, ea: ExecAnalysis, retire_probe: bool, aborted: bool,
             elif s == "dag-deact":
                 in_graph.add(nid)
                 expected_deact.add(nid)
+    pulled: Set[str] = set()
     if ex.debug_on and ex.selected is not None:
-        # debug nodes pulled into a sub-graph run take part in the scheduling decisions once they are known to run
-        for nid_ in {e[2] for _, e in ea.events if e[0] == "enter"}:
+        # debug nodes pulled into a sub-graph run take part in the scheduling decisions once they are known to take part
+        # (entered, or retired without entering = deactivated)
+        for nid_ in {e[2] for _, e in ea.events if e[0] in ("enter", "retire")}:
             a_ = attrs.get(nid_)
             if a_ is not None and a_["debug"] and nid_ not in in_graph:
                 in_graph.add(nid_)
+                pulled.add(nid_)
     if ex.setup_only:
         in_graph = {n for n in in_graph if attrs[n]["setup"]}
         expected_exec &= in_graph
@@ -533,6 +536,9 @@ def _analyse_exec(run: Any, ea: ExecAnalysis, retire_probe: bool, aborted: bool,
             ok = True
             for d in deps.get(m, ()):
                 if d not in in_graph:
+                    if m in pulled and not possible and status.get(attrs[d]["path"]) != "memo":
+                        ok = False   # a pulled-in debug node whose input's participation is unknown is not *definitely* ready
+                        break
                     continue
                 if d in observed:
                     continue
